@@ -85,14 +85,12 @@ func (c *Ctx) mapRangeVerdict(u FuncUnit, rs *ast.RangeStmt) (bool, string) {
 			if keyObj != nil && x.Else == nil && len(x.Body.List) == 1 {
 				if as, ok := x.Body.List[0].(*ast.AssignStmt); ok {
 					usesKeyCompare := false
-					ast.Inspect(x.Cond, func(n ast.Node) bool {
-						if be, ok := n.(*ast.BinaryExpr); ok && (be.Op == token.LSS || be.Op == token.GTR) {
-							if identObj(info, be.X) == keyObj || identObj(info, be.Y) == keyObj {
-								usesKeyCompare = true
-							}
+					// comparisons read with their polarity: `!(k >= best)` is `k < best`
+					for _, be := range cmpAtomsOf(x.Cond) {
+						if (be.Op == token.LSS || be.Op == token.GTR) && (identObj(info, be.X) == keyObj || identObj(info, be.Y) == keyObj) {
+							usesKeyCompare = true
 						}
-						return true
-					})
+					}
 					assignsKey := false
 					for _, r := range as.Rhs {
 						if identObj(info, r) == keyObj {
